@@ -116,6 +116,8 @@ fn run_case(cfg: &Value, case: &Value, ln: usize) -> (Vec<Mismatch>, Value, Vec<
     let step_no = Arc::new(AtomicUsize::new(0));
     let cap = cfg["cap"].as_u64().unwrap() as usize;
     let (sender, receiver) = emit_batcher::bounded::<Vec<i64>>(cap);
+    // the receiver's own view of the channel metrics (it also survives the last Sender)
+    let recv_metrics = receiver.metric_source();
     let sender = Arc::new(sender);
     let mut handles = Vec::new();
     let mut mism: Vec<Mismatch> = Vec::new();
@@ -578,14 +580,19 @@ fn run_case(cfg: &Value, case: &Value, ln: usize) -> (Vec<Mismatch>, Value, Vec<
         }
         drop(ob);
         // metrics
+        // (through the Sender while it exists and through the Receiver's handle always: both must
+        // report the specification's counters)
+        let mut views: Vec<(&str, BTreeMap<String, u64>)> = vec![("receiver", sample_source(&recv_metrics))];
         if let Some(s) = sender_opt.as_ref() {
-            let got = sample_metrics(s);
+            views.push(("sender", sample_metrics(s)));
+        }
+        for (view, got) in views {
             let want = &fin["metrics"];
             for (k, class) in [("queue_full_truncated", "prop"), ("queue_full_blocked", "model"), ("queue_batch_processed", "prop"), ("queue_batch_failed", "prop"), ("queue_batch_panicked", "prop"), ("queue_batch_retry", "prop"), ("queue_length", "prop")] {
                 let w = want[k].as_u64().unwrap();
                 let g = got.get(k).copied().unwrap_or(u64::MAX);
                 if g != w {
-                    mism.push(Mismatch { class, step: steps.len(), what: format!("metric {k} = {g}, specification says {w}") });
+                    mism.push(Mismatch { class, step: steps.len(), what: format!("metric {k} = {g} ({view}'s metric source), specification says {w}") });
                 }
             }
         }
@@ -647,9 +654,12 @@ fn run_case(cfg: &Value, case: &Value, ln: usize) -> (Vec<Mismatch>, Value, Vec<
 }
 
 fn sample_metrics(sender: &emit_batcher::Sender<Vec<i64>>) -> BTreeMap<String, u64> {
-    use emit::metric::Source;
+    sample_source(&sender.metric_source())
+}
+
+fn sample_source(source: &impl emit::metric::Source) -> BTreeMap<String, u64> {
     let out = Mutex::new(BTreeMap::new());
-    sender.metric_source().sample_metrics(emit::metric::sampler::from_fn(|m| {
+    source.sample_metrics(emit::metric::sampler::from_fn(|m| {
         let v = m.value().by_ref().cast::<u64>().unwrap_or(u64::MAX);
         out.lock().unwrap().insert(m.name().to_string(), v);
     }));
